@@ -20,6 +20,7 @@ using cm::Value;
 extern "C" const char *__asan_default_options() { return "malloc_context_size=6"; }
 
 static_assert(LDBL_MANT_DIG >= 64, "midpoints of adjacent doubles are built exactly in long double");
+static bool no_exclude() { static int t = -1; if (t < 0) { const char *e = getenv("VERIF_C10_NOEXCLUDE"); t = (e && *e == '1') ? 1 : 0; } return t == 1; }   // development aid: search the known-finding classes too (to confirm a fix)
 
 // ------------------------------------------------------------------------------------------------------------------
 // independent recogniser of CIF numeric syntax:  [+-]? ( D+ ('.' D*)? | '.' D+ ) ( [eE] [+-]? D+ )? ( '(' D+ ')' )?
@@ -147,7 +148,7 @@ static std::string check_value_su(cif_value_tp *v, const ustr &text, const Num &
     auto label = [&](const std::string &l) { if (strcmp(what, "c-direct") != 0) vh::label(l); };   // the second pass over the same text is not counted twice
     if (d.val.tie) label(std::string(what) + (d.val.tie == 1 ? ":value-exact-tie(even-below)" : ":value-exact-tie(even-above)"));
     if (d.su.tie) label(std::string(what) + (d.su.tie == 1 ? ":su-exact-tie(even-below)" : ":su-exact-tie(even-above)"));
-    if (skip_known && (d.val.tie == 2 || d.su.tie == 2)) { count_excluded("F-TIE-ODD"); return ""; }
+    if (skip_known && !no_exclude() && (d.val.tie == 2 || d.su.tie == 2)) { count_excluded("F-TIE-ODD"); return ""; }
     double got = 0, gsu = 0;
     int r1 = cif_value_get_number(v, &got);
     if (r1 != CIF_OK) return std::string(what) + ": cif_value_get_number returned " + cm::code_name(r1) + " for '" + clip(u8(text)) + "'";
@@ -687,7 +688,7 @@ static CCase gen_c() {
     case 9: c.val = 0.0; c.fam = "zero"; break;
     default: { char b[40]; snprintf(b, sizeof b, "%d.%de%d", R(1, 9), R(0, 99999), R(-25, 25)); c.val = sd(b); c.fam = "sci-literal"; break; }
     }
-    if (msp_log10_val(c.val)) {   // known finding: excluded by construction (counted), witness replayed separately
+    if (!no_exclude() && msp_log10_val(c.val)) {   // known finding: excluded by construction (counted), witness replayed separately
         count_excluded("F-MSP-LOG10");
         for (int i = 0; i < 64 && msp_log10_val(c.val); i++) c.val = nextafter(c.val, 1.0);
         c.tie = false;
@@ -768,7 +769,7 @@ int main(int argc, char **argv) {
             begin_case(c);
             label("a:gen-" + kind);
             Num n = parse_num(s);
-            if (s.size() >= 3 && (!n.ok || n.has_exp || n.has_su)) nontrivial(fnv("a|" + c.get("text")));
+            if (!n.ok && kind == "single-edit") nontrivial(fnv("a|" + c.get("text")));   // a refused neighbour of a valid number
             if (s.size() < 60) sample("(a) parse_numb('" + uesc(s) + "') expect " + (n.ok ? "CIF_OK" : "CIF_INVALID_NUMBER"));
             std::string m = run_case(c);
             if (!m.empty()) { record_fail(c, m); RC_FAIL(m); }
@@ -777,15 +778,17 @@ int main(int argc, char **argv) {
         ok = !want('b') || rc::check("C10(b) get_number / get_su are the correctly rounded doubles of the decimal text", []() {
             BCase b = gen_b();
             ustr s = to_u16(b.text);
-            for (int tries = 0; tries < 20 && odd_tie_text(s); tries++) { count_excluded("F-TIE-ODD"); b = gen_b(); s = to_u16(b.text); }   // known finding, witness replayed separately
-            if (odd_tie_text(s)) { b.text = "1.5"; b.fam = "everyday"; b.tie = false; s = to_u16(b.text); }
+            for (int tries = 0; tries < 20 && !no_exclude() && odd_tie_text(s); tries++) { count_excluded("F-TIE-ODD"); b = gen_b(); s = to_u16(b.text); }   // known finding, witness replayed separately
+            if (!no_exclude() && odd_tie_text(s)) { b.text = "1.5"; b.fam = "everyday"; b.tie = false; s = to_u16(b.text); }
             if (expovf_text(s)) { count_excluded("F-EXPOVF"); return; }   // cannot happen: exponents have <= 8 digits by construction
             CaseFile c; c.set("sub", "b"); c.set("text", ser_u16(s)); c.set("fam", b.fam); c.seti("route", W({{4, 0}, {1, 1}}));
             begin_case(c);
             Num n = parse_num(s);
             size_t sig = strip0(n.mant).size();
             if (b.tie) label("b:generated-exact-tie");
-            if (b.tie || sig >= 17 || std::labs(n.expo()) > 30) nontrivial(fnv("b|" + c.get("text")));
+            // aimed at a rounding boundary (midpoints, binade and range boundaries and their neighbours), or >= 17 significant digits with a large exponent
+            if (b.tie || b.fam.compare(0, 8, "midpoint") == 0 || b.fam.compare(0, 6, "binade") == 0 || b.fam == "range-extremes" || (sig >= 17 && std::labs(n.expo()) > 30))
+                nontrivial(fnv("b|" + c.get("text")));
             if (b.text.size() < 70) sample("(b) " + b.fam + ": " + b.text);
             std::string m = run_case(c);
             if (!m.empty()) { record_fail(c, m); RC_FAIL(m); }
@@ -796,7 +799,7 @@ int main(int argc, char **argv) {
             CaseFile c; c.set("sub", "c"); c.set("fn", k.autoi ? "auto" : "init"); c.set("val", bits_ser(k.val)); c.set("su", bits_ser(k.su));
             c.seti("scale", k.scale); c.seti("mlz", k.mlz); c.seti("rule", (long) k.rule); c.set("fam", k.fam); c.seti("prior", W({{5, 0}, {1, R(1, 6)}}));
             begin_case(c);
-            if (k.tie || k.su != 0 || std::abs(k.scale) > 8) nontrivial(fnv("c|" + c.get("fn") + c.get("val") + c.get("su") + c.get("scale") + "|" + c.get("rule") + "|" + c.get("mlz")));
+            if (k.tie || k.fam == "tie-at-scale+-1ulp" || k.fam == "nines" || k.fam == "bignum-group-boundary" || (k.su != 0 && std::abs(k.scale) > 8)) nontrivial(fnv("c|" + c.get("fn") + c.get("val") + c.get("su") + c.get("scale") + "|" + c.get("rule") + "|" + c.get("mlz")));
             char b[200];
             if (k.autoi) snprintf(b, sizeof b, "(c) autoinit_numb(%.17g, su=%.6g, rule=%u) [%s]", k.val, k.su, k.rule, k.fam.c_str());
             else snprintf(b, sizeof b, "(c) init_numb(%.17g, su=%.6g, scale=%d, mlz=%d) [%s]", k.val, k.su, k.scale, k.mlz, k.fam.c_str());
